@@ -686,6 +686,21 @@ def _run_own(ctx):
     return proved
 
 
+def broken_phase(ctx):
+    """'still complete by retrying' holds for the life of the daemon: any number of earlier broken connections (at every byte
+    offset of the header) must leave it able to serve the next attempt"""
+    import conc, rig
+    exe, err = rig.build_daemon(ctx, san="address")
+    if exe is None:
+        return
+    pp, rep, n = conc.broken_connections_phase(ctx, exe, n=300 if ctx.thorough else 120)
+    ctx.cov.setdefault("input_distribution", {})["broken-connections"] = n
+    for pb in pp[:2]:
+        ctx.violation(pb["why"], pb)
+    if rep.strip() and not pp:
+        ctx.violation("sanitizer report from the daemon after broken connections", {"report": rep[:3000]}, found_input=False)
+
+
 def run(ctx):
     """the property's own check, then the component check of the socket I/O loops (fd.c) that every request and reply of
     this property goes through: Properties_FD.v + correspondence FdModel ~ /repo's fd.c (tools/props/fd_common.py)"""
@@ -695,5 +710,6 @@ def run(ctx):
                       {"obligation": getattr(ctx, "broken_obligation", "?"), "log": ctx.proof_log[-3000:]}, found_input=False)
     if getattr(ctx, "replay", None):
         return
+    broken_phase(ctx)
     from props import fd_common
     fd_common.fd_phase(ctx)
